@@ -16,6 +16,7 @@
 #include <fstream>
 #include <iostream>
 #include <map>
+#include <memory>
 #include <mutex>
 #include <sstream>
 #include <string>
@@ -125,6 +126,41 @@ static std::string tokenDump(const std::string& src) {
     return o + "]";
 }
 
+// The lexer's input is a view: what it returns may depend on the bytes of the view only. The source is lexed from a buffer of
+// exactly its size (a read past the end is then a heap overflow the sanitizer reports) and from the front of larger buffers
+// whose remaining bytes are '/', '"', quotes, letters, digits or newlines; all results must be the one obtained from a
+// NUL-terminated std::string.
+struct ViewDependence : std::runtime_error {
+    using std::runtime_error::runtime_error;
+};
+static std::string lexOutcome(std::string_view view) {
+    try {
+        compiler::Lexer lx(view);
+        auto toks = lx.tokenize();
+        std::string o;
+        for (auto& t : toks)
+            o += std::to_string((int)t.type) + ":" + t.value + "@" + std::to_string(t.line) + ":" + std::to_string(t.column) + "\n";
+        return o;
+    } catch (const BlochError& e) {
+        return std::string("error ") + std::to_string(e.line) + ":" + std::to_string(e.column);
+    }
+}
+static void viewCheck(const std::string& src) {
+    const std::string ref = lexOutcome(std::string_view(src));
+    {
+        std::unique_ptr<char[]> exact(new char[src.size() ? src.size() : 1]);
+        std::memcpy(exact.get(), src.data(), src.size());
+        if (lexOutcome(std::string_view(exact.get(), src.size())) != ref)
+            throw ViewDependence("lexing an exact-size buffer differs from lexing the same text in a std::string");
+    }
+    static const char* tails[] = {"////////", "\"\"\"\"\"\"\"\"", "abcdefgh", "\'\'\'\'\'\'\'\'", "99999999", "\n\n\n\n"};
+    for (const char* tail : tails) {
+        std::string big = src + tail;
+        if (lexOutcome(std::string_view(big.data(), src.size())) != ref)
+            throw ViewDependence(std::string("lexing depends on bytes beyond the end of the source view (followed by ") + tail + ")");
+    }
+}
+
 int main(int argc, char** argv) {
     if (argc < 3) {
         fprintf(stderr, "usage: prog_runner jobs.ndjson results.ndjson [workdir] [stdlib]\n");
@@ -203,6 +239,8 @@ int main(int argc, char** argv) {
         alarm((timeoutMs + 999) / 1000);
         Capture cap;
         try {
+            if (job->has("view_check") && job->at("view_check").b && job->has("src"))
+                viewCheck(job->at("src").s);
             if (stage == "lex") {
                 extra = ",\"tokens\":" + tokenDump(job->at("src").s);
             } else if (stage == "ast") {
@@ -396,6 +434,9 @@ int main(int argc, char** argv) {
             what = stripAnsi(e.what());
             eline = e.line;
             ecol = e.column;
+        } catch (const ViewDependence& e) {
+            status = "view_dependence";
+            what = e.what();
         } catch (const std::exception& e) {
             status = "other";
             what = e.what();
